@@ -67,6 +67,11 @@ def scenario(rng, k, tier):
             L.append(default_policy(rng, 0, ssrc_type=SSRC_ANY_OUT, keys=[(keys[ki], b"")], allow_repeat=wild_allow, **cpk).line(8))
             L.append("update 1 8"); L.append("# V")
             wild_key = ki
+        elif r < 0.66 and s in table:
+            # an update the library must refuse (window size it cannot handle): the SSRC keeps its stream and its key
+            ki = rng.randrange(nkeys)
+            bad = default_policy(rng, s, keys=[(keys[ki], b"")], allow_repeat=allow.get(s, False), **cpk); bad.window = rng.choice([10, 63, 40000])
+            L.append(bad.line(7)); L.append("update 1 7"); L.append(f"# UF {s:x}")
         elif r < 0.70 and s in table:
             ki = rng.randrange(nkeys)
             L.append(default_policy(rng, s, keys=[(keys[ki], b"")], allow_repeat=allow.get(s, False), **cpk).line(7))
@@ -134,6 +139,8 @@ def monitor(script, c):
             hits.append({"what": "a second wildcard policy was accepted", "signature": "map-second-wildcard", "detail": f"line {i-1}"}); break
         if k == "V" and st(i - 1) != 0:
             hits.append({"what": "update of the wildcard policy failed", "signature": "map-wild-update-failed", "detail": f"line {i-1}"}); break
+        if k == "UF" and st(i - 1) == 0:
+            hits.append({"what": "an update with a window size the library cannot handle was accepted", "signature": "map-bad-update-accepted", "detail": f"line {i-1}"}); break
         if k == "U" and st(i - 1) != 0:
             hits.append({"what": "update of an existing explicit stream failed", "signature": "map-update-failed", "detail": f"line {i-1}"}); break
         if k == "P2":
